@@ -42,8 +42,8 @@ DESCRIPTION = {
         "exceptions are compared by type name",
         "metadata is served by DummyMetaDataProvider built from the dict the tests use (SQLAlchemy-backed providers of the test-suite are not replayed)",
     ],
-    "required_probes": {"quick": ["multi_element_result", "accessor_permuted", "accessor_repeated", "warm_process"],
-                        "thorough": ["multi_element_result", "accessor_permuted", "accessor_repeated", "warm_process"]},
+    "required_probes": {"quick": ["multi_element_result", "accessor_permuted", "accessor_repeated", "warm_process", "warm_same_text_other_dialect"],
+                        "thorough": ["multi_element_result", "accessor_permuted", "accessor_repeated", "warm_process", "warm_same_text_other_dialect"]},
 }
 
 _WS = re.compile(r"\s+")
@@ -122,6 +122,8 @@ def judge(inp: dict, worlds: list[dict], observations: list[dict]) -> dict:
     for w, o in zip(worlds[1:], observations[1:]):
         if w.get("prelude"):
             probes["warm_process"] = 1
+            if any(pre["sql"] == inp["sql"] and pre["dialect"] != inp["dialect"] for pre in w["prelude"]):
+                probes["warm_same_text_other_dialect"] = 1
         if w["prog"] != worlds[0]["prog"]:
             probes["accessor_permuted"] = 1
         for a, ds in o["obs"].items():
@@ -198,6 +200,42 @@ def corpus_inputs() -> list[dict]:
     out = []
     for it in items:
         out.append({"sql": it["sql"], "dialect": it["dialect"], "meta": it["meta"], "cfg": it.get("cfg") or {}, "silent": it.get("silent", False), "src": "corpus"})
+    return out
+
+
+XDIALECTS = ["ansi", "sparksql", "mysql", "bigquery", "postgres", "tsql", "snowflake", "hive", "non-validating"]
+# statements whose reading depends on the dialect's quoting / keywords (double quotes, brackets, TOP, INTO, backticks)
+XSHAPES = [
+    'INSERT INTO tgt SELECT "a" AS c, b FROM src',
+    'INSERT INTO tgt SELECT "a", "b" FROM "src"',
+    "INSERT INTO tgt SELECT [a], b FROM [s1].[src]",
+    "SELECT TOP 10 a, b INTO tgt FROM src",
+    "SELECT a, b INTO tgt FROM src WHERE a > 1",
+    "INSERT INTO tgt SELECT `a`, b FROM `src`",
+    'INSERT INTO tgt SELECT t."a" AS x FROM src t JOIN "other" o ON t.k = o.k',
+    "INSERT OVERWRITE TABLE tgt SELECT a, b FROM src",
+    "INSERT INTO tgt SELECT a, b FROM src;\nINSERT INTO tgt2 SELECT \"a\" AS c FROM tgt",
+]
+
+
+def xdialect_inputs(seed: int, n: int) -> list[dict]:
+    """The same script text met under ANOTHER dialect / configuration earlier in the same process (warm world):
+    the dialect, metadata and configuration of the run being observed are the only things its answers may depend on."""
+    g = stream(seed, "c11-xdialect")
+    pool_ = [it for it in corpus_inputs() if it["dialect"] not in ("non-validating", "ansi")]
+    out = []
+    for i in range(n):
+        if g.random() < 0.45:
+            sql, meta, x = g.choice(XSHAPES), None, g.choice(["tsql", "tsql", "ansi", "sparksql", "mysql", "bigquery"])
+        else:
+            it = g.choice(pool_)
+            sql, meta, x = it["sql"], it["meta"], it["dialect"]
+        if g.random() < 0.3 and not sql.rstrip().endswith(";"):
+            sql = sql + g.choice([";", "\n", " "])
+        d = g.choice([y for y in XDIALECTS if y != x])
+        pre = {"sql": sql, "dialect": x, "meta": meta, "cfg": ({"TSQL_NO_SEMICOLON": True} if x == "tsql" and g.random() < 0.8 else {}), "silent": False, "src": "xdialect-pre"}
+        out.append({"sql": sql, "dialect": d, "meta": meta, "cfg": ({"TSQL_NO_SEMICOLON": True} if d == "tsql" and g.random() < 0.3 else {}), "silent": False,
+                    "src": "xdialect", "siblings": [pre]})
     return out
 
 
@@ -434,7 +472,7 @@ def search(pool, tier: str, seed: int, deadline: float, agg: Agg) -> None:
     tp = tpcds_inputs()
     if tier == "quick":  # a third of the (heavy) TPC-DS queries per seed
         tp = [x for i, x in enumerate(tp) if (i + seed) % 3 == 0]
-    inputs = corpus_inputs() + tp + generated_inputs(seed, {"quick": 270, "thorough": 3000}[tier])
+    inputs = corpus_inputs() + tp + generated_inputs(seed, {"quick": 270, "thorough": 3000}[tier]) + xdialect_inputs(seed, {"quick": 60, "thorough": 600}[tier])
     seen = set()
     uniq = []
     for inp in inputs:
